@@ -1377,6 +1377,24 @@ def _local_aliases(parsed, log) -> None:
                         continue        # a module-level object that is not a class: leave it
                     cands[name] = x.value
                     stmts[name] = x
+            # `has_wildcard = b"*" in raw_value` at the top level of the function body, every operand a name / constant / attribute chain
+            # whose stores all come earlier in the text: the flag is the comparison
+            for x in fn.body:
+                if isinstance(x, ast.Assign) and len(x.targets) == 1 and isinstance(x.targets[0], ast.Name) and isinstance(x.value, ast.Compare) and len(x.value.ops) == 1:
+                    name = x.targets[0].id
+                    if bound.get(name, 0) != 1 or name in inner_names:
+                        continue
+                    ops_ = [x.value.left] + list(x.value.comparators)
+                    if not all(isinstance(o, (ast.Name, ast.Constant)) for o in ops_):
+                        continue
+                    onames = {o.id for o in ops_ if isinstance(o, ast.Name)}
+                    if name in onames or onames & inner_names:
+                        continue
+                    late = [y for y in own if isinstance(y, ast.Name) and isinstance(y.ctx, (ast.Store, ast.Del)) and y.id in onames and y.lineno >= x.lineno]
+                    if late or any(bound.get(o, 0) == 0 for o in onames):
+                        continue
+                    cands[name] = x.value
+                    stmts[name] = x
             if not cands:
                 continue
             # the alias must be assigned before its uses in source order (single binding: any earlier use would be an UnboundLocalError anyway)
